@@ -183,8 +183,8 @@ func TestC15_ReadMarkersChargeOnce(t *testing.T) {
 	st.Assume("'exactly the read price times the newly read size' is floor(price * blocks / 16384) with a tolerance of 1 unit + 2^-50 relative for the contract's float64 product")
 	redeems, replays := map[string]int{}, map[string]int{}
 	caseReset["C15"] = func() { redeems, replays = map[string]int{}, map[string]int{} }
-	ops := []string{"newAlloc", "newAlloc", "readLock", "readRedeem2", "readRedeem2", "readRedeem2", "readRedeem2", "readRedeem2", "readRedeem2", "readRedeem2",
-		"readUnlock", "upload", "advance", "advance", "extend", "replaceBlobber", "cancel", "finalize", "kill", "unstake", "blobberSettings", "writeLock"}
+	ops := []string{"newAlloc2", "newAlloc2", "readLock", "readRedeem2", "readRedeem2", "readRedeem2", "readRedeem2", "readRedeem2", "readRedeem2", "readRedeem2",
+		"readUnlock", "upload", "advance", "advance", "extend2", "replaceBlobber", "cancel", "finalize", "kill", "unstake", "blobberSettings", "writeLock"}
 	runMachineOps(t, "C15", ops, "generated storage histories biased to read markers on a chain with 6 blobbers and 4 validators: markers for (blobber, reader, allocation) triples where the reader is the owner or another client and the blobber serves the allocation or not; counters replayed, older, next, forward by 1..400 blocks, huge, non-positive; signed by the reader, by another key, or altered after signing; timestamps now / at start / before start / after expiry; sent by the blobber or a stranger; interleaved with read pool locks and unlocks, new allocations sharing blobbers and readers, uploads, clock jumps, blobber replacement, cancel / finalize, kills, unstaking; oracle after every applied transaction: a read pool decreases only through a successful read_redeem of a marker of that very client (by floor(price x new blocks / 16384) within the stated tolerance, nothing for a replay) or through the client's own unlock; a successful redeem needs a valid signature of the reader's key, a counter not below the last redeemed one, and leaves exactly its counter as last redeemed; a failed redeem changes neither pool nor counter; non-trivial = history in which some triple was redeemed successfully >= 3 times including >= 1 replay charging nothing; distinct by history", 40, 90,
 		func(m *machine, txn *transaction.Transaction, o sim.Outcome, before *snapshot) error {
 			v := m.w.View()
@@ -304,8 +304,8 @@ func TestC14_CloseRefundsOnce(t *testing.T) {
 	st.Assume("the configured cancellation charge is cancellation_charge x sum of the blobbers' offers (size in GB x write price), as storageAllocationBase.cancellationCharge computes it; 2 units of slack per blobber for float rounding")
 	closes, richCloses, afterClose := 0, 0, 0
 	caseReset["C14"] = func() { closes, richCloses, afterClose = 0, 0, 0 }
-	ops := []string{"newAlloc", "newAlloc", "upload", "upload", "upload", "delete", "challenge", "challenge", "respond", "respond", "writeLock", "writeLock", "readRedeem2",
-		"extend", "grow", "replaceBlobber", "cancel", "cancel", "cancel", "finalize", "finalize", "finalize", "kill", "stake", "collect", "advance", "advance", "freeAlloc", "addAssigner"}
+	ops := []string{"newAlloc2", "newAlloc2", "upload", "upload", "upload", "delete", "challenge", "challenge", "respond", "respond", "writeLock", "writeLock", "readRedeem2",
+		"extend2", "extend2", "replaceBlobber", "cancel", "cancel", "cancel", "finalize", "finalize", "finalize", "kill", "stake", "collect", "advance", "advance", "freeAlloc", "addAssigner"}
 	runMachineOps(t, "C14", ops, "generated storage histories biased to closing: allocations (incl. free-storage ones) receive uploads, challenges, write pool locks and updates and are then cancelled / finalized by the owner, one of their blobbers or a stranger, before and after expiry, repeatedly, followed by locks, markers, updates and closes naming the closed allocation; oracle: a close succeeds only for an open allocation, cancel only by the owner not after expiry, finalize only by the owner or one of its blobbers not before expiry; on a successful close the owner's balance grows by exactly what leaves the contract wallet, that refund is at least write pool - min(write pool, cancellation charge) and, together with all reward increments of stake pools, at most write pool + challenge pool; reward increments of the allocation's blobbers are at most challenge pool + min(write pool, cancellation charge); allocation and challenge pool nodes are gone; any later transaction naming the closed allocation fails and moves no balance; non-trivial = close with non-zero challenge pool and non-zero write pool; distinct by history", 40, 90,
 		func(m *machine, txn *transaction.Transaction, o sim.Outcome, before *snapshot) error {
 			c := m.cur
